@@ -65,7 +65,7 @@ func runC19(c *Ctx) {
 	}
 	n := c.Pick(1500, 30000)
 	var mu sync.Mutex
-	var evals, preN int64
+	var evals, preN, lookN int64
 	distinct := mon.NewDistinct(1_000_000)
 	lenClass := func(l int) int {
 		switch {
@@ -115,12 +115,44 @@ func runC19(c *Ctx) {
 			ln = 1
 		}
 		body := make([]byte, ln)
+		lookalike := false
 		for i := range body {
 			body[i] = r.U8()
 		}
+		// images that themselves look like a container (raw code may start with FE = CP n;
+		// a tool's own output may be fed back in)
+		switch r.Intn(10) {
+		case 0:
+			if ln >= 7 {
+				st := int(r.U16())
+				if r.Bool() {
+					st = off
+				}
+				en := st + ln - 7 - 1
+				copy(body, []byte{0xfe, uint8(st), uint8(st >> 8), uint8(en), uint8(en >> 8), uint8(st), uint8(st >> 8)})
+				lookalike = true
+			}
+		case 1:
+			if ln >= 38 {
+				copy(body, casSync)
+				for i := 8; i < 18; i++ {
+					body[i] = 0xd0
+				}
+				copy(body[18:], "NAME  ")
+				copy(body[24:], casSync)
+				en := off + ln - 38 - 1
+				copy(body[32:], []byte{uint8(off), uint8(off >> 8), uint8(en), uint8(en >> 8), uint8(off), uint8(off >> 8)})
+				lookalike = true
+			}
+		}
 		// bytes that a text-mode transformation would mangle
-		if ln >= 4 {
+		if ln >= 4 && !lookalike {
 			copy(body[r.Intn(ln-3):], []byte{0x0d, 0x0a, 0x1a, 0x00})
+		}
+		if lookalike {
+			mu.Lock()
+			lookN++
+			mu.Unlock()
 		}
 		// input file name (relative, cwd = dir): 1..12 chars
 		fnLen := 1 + r.Intn(12)
@@ -244,8 +276,9 @@ func runC19(c *Ctx) {
 	})
 	c.R.Set("evaluations", evals)
 	c.R.Set("runs_over_preexisting_output", preN)
+	c.R.Set("images_that_look_like_a_container", lookN)
 	c.R.Set("distinct_nontrivial", distinct.N())
 	c.R.Set("exhaustive", false)
-	c.R.Set("rule", "the built cmd/cim2bin and cmd/cim2cas binaries are run (cwd = scratch dir) on generated images: lengths {1,2,255,256,257, up to 2048, and the maximal length whose last byte lands exactly on FFFF (1/3 of cases) or just below} with arbitrary contents incl. CR LF ^Z NUL, offsets {0,1,00FF,0100,8000,A000 (explicit and default),FF00,FFFF, near FFFF, random} in decimal or 0x form, names of length 1..12 over all byte values incl. spaces, control bytes, valid multi-byte UTF-8 and invalid UTF-8, and the default name (the -cim argument, file names of 1..12 chars); in 1/3 of the runs the output path already holds an older longer/shorter file; output bytes compared with the layout written out from the property. Distinct = distinct (tool, length, offset, name length) tuples; every invocation is non-trivial")
+	c.R.Set("rule", "the built cmd/cim2bin and cmd/cim2cas binaries are run (cwd = scratch dir) on generated images: lengths {1,2,255,256,257, up to 2048, and the maximal length whose last byte lands exactly on FFFF (1/3 of cases) or just below} with arbitrary contents incl. CR LF ^Z NUL and, in 1/5 of cases, images that themselves start with a consistent BSAVE or CAS header (raw code may begin with FE; a tool's output may be fed back), offsets {0,1,00FF,0100,8000,A000 (explicit and default),FF00,FFFF, near FFFF, random} in decimal or 0x form, names of length 1..12 over all byte values incl. spaces, control bytes, valid multi-byte UTF-8 and invalid UTF-8, and the default name (the -cim argument, file names of 1..12 chars); in 1/3 of the runs the output path already holds an older longer/shorter file; output bytes compared with the layout written out from the property. Distinct = distinct (tool, length, offset, name length) tuples; every invocation is non-trivial")
 	c.R.Assume("I/O error behaviour is outside the property; end address always fits in 16 bits")
 }
